@@ -129,6 +129,15 @@ CLAIMED = {
              "registry removal only for (RM, stop); task deregistration always refuses; same-topic/same-flags subscription updates in place.",
         tech="type/record-layout compatibility between call sites and function-pointer-bound comparators, implicit-cast inspection, path enumeration, def-use",
         ref="DESIGN.md §4 C09, A.6"),
+    "C14": dict(
+        text="Static rules: inventory of every object with static storage in the 19 units, each classified never-written / written only by "
+             "constructors or m_set_memhook / the pthread key pair — any other written static reachable from context code is reported (this is "
+             "how the shared idle-time static was found); guard table over all 41 public functions taking a module handle (thread check before "
+             "any effect, directly or through the three guarded internal entry points; getters effect-free; lookup answers NULL); same-context "
+             "test before tell/poison pill and delivery confined to the sender's context; effect set of the task thread. Races inside user "
+             "callbacks/allocator and observational independence are not decided. Known finding K4 (source handed to the pool thread unreferenced).",
+        tech="writes-to-globals effect analysis over the call graph + guard tables + who-calls",
+        ref="DESIGN.md §4 C14"),
 }
 
 NOT_APPLICABLE = {
